@@ -190,6 +190,32 @@ pub fn impl_eval(e: &Expr, facts: &Value) -> String {
     if ctor != direct {
         return format!("(constructors-change-the-result direct {} constructed {})", direct, ctor);
     }
+    // "a rule parsed from text evaluates like the expression that text denotes": when the rendering of `e` denotes `e`
+    // (Expr::parse gives back the same tree, representation included), the rule `Rule::parse` builds from that text,
+    // evaluated in a ruleset without symbols or functions, must give what `e` gives
+    let text = e.to_string();
+    if text.len() < 4000 {
+        if let Ok(back) = Expr::parse(&text) {
+            if enc_expr(&back) == enc_expr(e) {
+                let via_rule = catch_unwind(AssertUnwindSafe(|| match Rule::parse(&format!("// r\n{}", text)) {
+                    Err(_) => "(rule-text-rejected)".to_string(),
+                    Ok(r) => match ruleset().with_rule(r) {
+                        Err(_) => "(rule-rejected)".to_string(),
+                        Ok(b) => match block_on(b.build().evaluate_value(facts)) {
+                            Ok(outs) if outs.len() == 1 => enc_result(&outs[0].value),
+                            Ok(outs) => format!("({} outcomes)", outs.len()),
+                            Err(er) => format!("EVALERR {}", enc_err(&er)),
+                        },
+                    },
+                }));
+                match via_rule {
+                    Err(p) => return format!("PANIC (as a rule parsed from its text) {}", panic_msg(p).replace(['\t', '\n'], " ")),
+                    Ok(r) if r != direct => return format!("(rule-parsed-from-text-differs direct {} as-rule {})", direct, r),
+                    Ok(_) => {}
+                }
+            }
+        }
+    }
     // a clone is the same expression
     let cl = e.clone();
     if format!("{:?}", cl) != format!("{:?}", e) {
@@ -216,10 +242,14 @@ pub fn build_ruleset(rules: &[Expr], env: &EnvSpec, shared: &Arc<Shared>) -> Res
         .enumerate()
         .map(|(i, e)| {
             if h & 48 == 48 {
-                if let Ok(r) = Rule::parse(&format!("// r{}\n{}", i, e)) {
-                    // identical down to representation (sign of zero, decimal scale, NaN): `==` alone is too coarse
-                    if enc_expr(r.expr()) == enc_expr(e) && r.name() == format!("r{}", i) {
-                        return r;
+                // when the rendering denotes `e` (Expr::parse gives it back, identical down to representation: sign of
+                // zero, decimal scale, NaN — `==` alone is too coarse), the rule Rule::parse builds from it stands for `e`
+                let text = e.to_string();
+                if Expr::parse(&text).map(|b| enc_expr(&b) == enc_expr(e)).unwrap_or(false) {
+                    if let Ok(r) = Rule::parse(&format!("// r{}\n{}", i, text)) {
+                        if r.name() == format!("r{}", i) {
+                            return r;
+                        }
                     }
                 }
             }
